@@ -37,7 +37,13 @@ def config(excl, order=("m1", "m2", "m3", "m4")):
             ms["excludes"] = excl[m]
         marks[m] = ms
     nodes = {
-        "doc": {"content": "(para | plain | none | grp | hgrp | all)+"},
+        "doc": {"content": "(para | plain | none | grp | hgrp | all | sect | sectg | bare | sectall | sectnone)+"},
+        # containers without inline content: an explicit list of marks / groups, no declaration (nothing allowed), all, none
+        "sect": {"content": "(para | plain)+", "marks": "m1 m3"},
+        "sectg": {"content": "para+", "marks": "h m4"},
+        "bare": {"content": "para+"},
+        "sectall": {"content": "para+", "marks": "_"},
+        "sectnone": {"content": "para+", "marks": ""},
         "hgrp": {"content": "text*", "marks": "h"},
         "para": {"content": "text*"},
         "plain": {"content": "text*", "marks": "m1 m3"},
